@@ -36,7 +36,9 @@ class Lifted(dict):
 def load_hook(npz, *a):
     out = Lifted()
     for k in npz.files:
-        out[k] = npproxy.lift(np.asarray(npz[k]))
+        a = np.asarray(npz[k])
+        out[k] = npproxy.lift(a) if a.dtype.kind == "f" else a         # integer tables (shell counts, sizes) stay integers
+    out.files = list(npz.files)
     return out
 
 
